@@ -4,7 +4,7 @@
    inhibition of WTA, accumulation of IA) are NOT modelled: those clauses are tied by
    simulation against the intended steady state (PARTIAL). *)
 From mathcomp Require Import all_ssreflect all_algebra.
-From NSpa Require Import Model.Vec Model.AssocMem Theory.AssocMemLaws.
+From NSpa Require Import Model.Vec Model.AssocMem Theory.AssocMemLaws Theory.AssocMemWta.
 Import GRing.Theory Num.Theory.
 Local Open Scope ring_scope.
 
@@ -92,6 +92,31 @@ Theorem C15_key_sequence_stores_every_key_once :
   forall (ks : seq nat), uniq (first_occurrences ks) /\ (forall k, (k \in first_occurrences ks) = (k \in ks)).
 Proof. by move=> ks; split; [exact: key_sequence_has_no_duplicates | move=> k; exact: key_sequence_keeps_every_key]. Qed.
 Print Assumptions C15_key_sequence_stores_every_key_once.
+
+(* winner-take-all and accumulator memories AT THEIR INTENDED STEADY STATE (one active unit: PARTIAL, the dynamics that
+   reach it are not modelled and are checked by simulation): only the winner's paired output is emitted *)
+Theorem C15_single_active_unit_emits_its_paired_output_alone :
+  forall (R : realDomainType) d (outs : seq (seq R)) w a,
+    all (fun o => size o == d) outs -> (w < size outs)%N ->
+    weighted_sum d (one_active (size outs) w a) outs = vscale a (nth [::] outs w).
+Proof. first [exact: single_active_unit_emits_its_output_alone | by move=> *; exact: single_active_unit_emits_its_output_alone | by intros; eapply single_active_unit_emits_its_output_alone; eauto]. Qed.
+Print Assumptions C15_single_active_unit_emits_its_paired_output_alone.
+
+Theorem C15_winner_take_all_steady_state_emits_only_the_winner_partial :
+  forall (R : realDomainType) theta d (pairs : seq (seq R * seq R)) x w,
+    outs_ok d pairs -> (w < size pairs)%N -> theta < vnth (utilities pairs x) w ->
+    weighted_sum d (wta_steady theta (utilities pairs x) w) [seq p.2 | p <- pairs]
+    = vscale (dot (nth ([::], [::]) pairs w).1 x) (nth ([::], [::]) pairs w).2.
+Proof. first [exact: wta_emits_only_the_stronger_key | by move=> *; exact: wta_emits_only_the_stronger_key | by intros; eapply wta_emits_only_the_stronger_key; eauto]. Qed.
+Print Assumptions C15_winner_take_all_steady_state_emits_only_the_winner_partial.
+
+Theorem C15_accumulator_steady_state_emits_only_the_winner_partial :
+  forall (R : realDomainType) (one : R) d (pairs : seq (seq R * seq R)) x w,
+    outs_ok d pairs -> (w < size pairs)%N -> 0 < vnth (utilities pairs x) w ->
+    weighted_sum d (ia_steady one (utilities pairs x) w) [seq p.2 | p <- pairs]
+    = vscale one (nth ([::], [::]) pairs w).2.
+Proof. first [exact: ia_emits_only_the_stronger_key | by move=> *; exact: ia_emits_only_the_stronger_key | by intros; eapply ia_emits_only_the_stronger_key; eauto]. Qed.
+Print Assumptions C15_accumulator_steady_state_emits_only_the_winner_partial.
 
 (* non-vacuity of the clean-key theorem: two keys, input = first key *)
 From mathcomp Require Import ssrZ.
